@@ -139,19 +139,59 @@ def expected_tokens(f, strip):
     """(kind, text-or-value) of the file's tokens, minus top-level game-loop function definitions if strip."""
     kept = f.lay.kept
     drop = set()
+    starts = set()
     strip_not_last = False
     if strip:
         top = [s for s in f.stmts if s[4] == 0]
         for i, (sid, s, a, b, depth, parent) in enumerate(top):
             if s[0] == 'function' and s[1][0] in GAME_LOOP:
                 drop.update(range(a, b + 1))
+                starts.add(a)
                 if i != len(top) - 1:
                     strip_not_last = True
     out = []
     for k, t in enumerate(kept):
         if k not in drop:
             out.append(t)
+        elif k in starts:
+            out.append(EMPTY_STATEMENT)     # an empty statement `;` may stand where a definition was taken out
+    if any(b + 1 < len(kept) and (b + 1) not in drop and kept[b + 1].text == b'(' and a > 0
+           for (sid, st_, a, b, depth, parent) in (top if strip else []) if a in starts):
+        PAREN_AFTER_STRIPPED[0] += 1
     return out, bool(drop), strip_not_last
+
+
+EMPTY_STATEMENT = None
+PAREN_AFTER_STRIPPED = [0]
+
+
+def match_body(outk, start, exp_toks):
+    """Compare built tokens from `start` with the expected ones; -> (tokens consumed, None) or (None, (k, exp, got)).
+    (An empty statement is optional at each marker: both readings are tried.)"""
+    keys = [None if t is EMPTY_STATEMENT else tok_key(t.kind, t.text) for t in exp_toks]
+    best = [(-1, None, None)]
+
+    def go(k, pos):
+        while k < len(keys):
+            if keys[k] is None:
+                if pos < len(outk) and outk[pos] == ('symbol', b';'):
+                    r = go(k + 1, pos + 1)
+                    if r is not None:
+                        return r
+                k += 1
+                continue
+            got = outk[pos] if pos < len(outk) else None
+            if got != keys[k]:
+                if k > best[0][0]:
+                    best[0] = (k, keys[k], got)
+                return None
+            k += 1
+            pos += 1
+        return pos
+    end = go(0, start)
+    if end is None:
+        return None, best[0]
+    return end - start, None
 
 
 def tok_key(kind, text):
@@ -379,7 +419,7 @@ def check_case(seed, case_dict, avoid=()):
                             % (err if err is not None else rc, src_show,
                                [(n.decode('latin-1'), show(case['files'][n].lay.src, 120)) for n in case['names']][:3]),
                             case_dict, 'build-fails')
-        code = reffmt.read_p8(open(outp, 'rb').read())['code']
+        code = reffmt.read_written(open(outp, 'rb').read(), case_dict)['code']
     # parses to the end
     try:
         l = plua.Lua.from_lines([code], version=8)
@@ -430,16 +470,13 @@ def check_case(seed, case_dict, avoid=()):
         exp_toks, stripped, strip_not_last = expected_tokens(f, strip)
         info['stripped'] = info['stripped'] or stripped
         info['strip_not_last'] = info['strip_not_last'] or strip_not_last
-        exp = [tok_key(t.kind, t.text) for t in exp_toks]
-        got = outk[pos + 10:pos + 10 + len(exp)]
-        if got != exp:
-            k = next((i for i in range(min(len(got), len(exp))) if got[i] != exp[i]), min(len(got), len(exp)))
+        used, bad = match_body(outk, pos + 10, exp_toks)
+        if bad is not None:
             raise Violation('package %s is not embedded token for token (%s): at token %d expected %s, built code has '
                             '%s -- package source %s'
                             % (show(name), 'game-loop definitions stripped' if strip else 'use_game_loop=true',
-                               k, exp[k] if k < len(exp) else None, got[k] if k < len(got) else None,
-                               show(f.lay.src, 200)), case_dict, 'package-body')
-        pos += 10 + len(exp)
+                               bad[0], bad[1], bad[2], show(f.lay.src, 200)), case_dict, 'package-body')
+        pos += 10 + used
         if pos >= limit or outk[pos] != ('keyword', b'end'):
             raise Violation('package %s body is not closed by `end` right after its code (found %s) -- package source %s'
                             % (show(name), outk[pos] if pos < len(outk) else None, show(f.lay.src, 200)),
@@ -476,6 +513,9 @@ def part_graphs(ctx):
             labs.append('package_requires_package')
         if info['stripped']:
             labs.append('game_loop_stripped')
+        if PAREN_AFTER_STRIPPED[0]:
+            labs.append('paren_statement_after_stripped_function')
+            PAREN_AFTER_STRIPPED[0] = 0
         if info['strip_not_last']:
             labs.append('game_loop_not_last')
         if any(case['ugl'][reach[k]] for k in order):
@@ -583,7 +623,8 @@ def vacuity(total, tier):
                 'use_game_loop', 'site_stmt', 'site_local', 'site_in_function', 'load_default', 'load_abs_cli',
                 'load_abs_env', 'load_rel_dotdot', 'no_final_newline', 'error_missing_file', 'error_bad_option_value',
                 'one_file_two_names_different_option', 'after_failed_build_in_same_process',
-                'package_named_like_a_directory', 'require_inside_stripped_game_loop'):
+                'package_named_like_a_directory', 'require_inside_stripped_game_loop',
+                'paren_statement_after_stripped_function'):
         if total.classes.get(lab, 0) < 2:
             msgs.append('class %s seen %d times' % (lab, total.classes.get(lab, 0)))
     return msgs
